@@ -287,6 +287,11 @@ func (w *JobWorld) oracleC14(br *world.BlockResult, prevE, curE *elig) []*core.V
 		default:
 			continue
 		}
+		if fees == nil {
+			// an elected estimate makes the message relayable; it must carry its fees from that moment on
+			out = append(out, vio("C14", "fees-missing", h, nil, fmt.Sprintf("message %d: gas estimate %d was elected but no fees were attached (the message is offered for relay without fees)", id, q.Raw.GasEstimate)))
+			continue
+		}
 		okAny := false
 		var wantR, wantC, wantS *big.Int
 		for _, e := range []*elig{curE, prevE} {
@@ -852,6 +857,61 @@ func deliveredFieldMutations(q *QMsg) []fieldMut {
 	return ms
 }
 
+// feeValueFamily checks "every pair of values" for the fee triple of a message that carries fees: a menu of explicit
+// triples (boundary values, all-equal triples and the current fees with one component replaced) must give pairwise
+// different signing bytes whenever the triples differ.
+func (w *JobWorld) feeValueFamily(q *QMsg, h int64) []*core.Violation {
+	setFees := func(m *evmtypes.Message, f *evmtypes.Fees) bool {
+		switch a := m.Action.(type) {
+		case *evmtypes.Message_SubmitLogicCall:
+			a.SubmitLogicCall.Fees = f
+			return true
+		case *evmtypes.Message_UploadUserSmartContract:
+			a.UploadUserSmartContract.Fees = f
+			return true
+		}
+		return false
+	}
+	var cur *evmtypes.Fees
+	switch a := q.Msg.Action.(type) {
+	case *evmtypes.Message_SubmitLogicCall:
+		cur = a.SubmitLogicCall.Fees
+	case *evmtypes.Message_UploadUserSmartContract:
+		cur = a.UploadUserSmartContract.Fees
+	default:
+		return nil
+	}
+	menu := []uint64{0, 1, 2, 21_000, 99_999, 100_000, 100_001, 300_000, 1 << 32, 1 << 63, ^uint64(0)}
+	var triples []evmtypes.Fees
+	for _, v := range menu {
+		triples = append(triples, evmtypes.Fees{RelayerFee: v, CommunityFee: v, SecurityFee: v})
+	}
+	if cur != nil {
+		v := menu[w.T.Intn(len(menu))]
+		triples = append(triples, evmtypes.Fees{RelayerFee: v, CommunityFee: cur.CommunityFee, SecurityFee: cur.SecurityFee},
+			evmtypes.Fees{RelayerFee: cur.RelayerFee, CommunityFee: v, SecurityFee: cur.SecurityFee},
+			evmtypes.Fees{RelayerFee: cur.RelayerFee, CommunityFee: cur.CommunityFee, SecurityFee: v})
+	}
+	seen := map[string]evmtypes.Fees{}
+	var out []*core.Violation
+	for _, f := range triples {
+		f := f
+		got, ok := w.mutatedBytes(q.Raw, func(_ *consensustypes.QueuedSignedMessage, m *evmtypes.Message) { setFees(m, &f) })
+		if !ok {
+			continue
+		}
+		w.R.Stats.Probe("c05_fee_value_pairs")
+		if other, dup := seen[string(got)]; dup && other != f {
+			out = append(out, vio("C05", "field-not-bound", h, map[string]string{"field": "fees (value pair)", "action": fmt.Sprintf("%T", q.Msg.Action)},
+				fmt.Sprintf("message %d (%T): fees %d/%d/%d and fees %d/%d/%d give the same bytes to sign (%x)", q.ID, q.Msg.Action,
+					other.RelayerFee, other.CommunityFee, other.SecurityFee, f.RelayerFee, f.CommunityFee, f.SecurityFee, got)))
+			break
+		}
+		seen[string(got)] = f
+	}
+	return out
+}
+
 func (w *JobWorld) oracleC05fields(br *world.BlockResult) []*core.Violation {
 	var out []*core.Violation
 	for _, id := range SortedIDs(w.Cur) {
@@ -863,6 +923,7 @@ func (w *JobWorld) oracleC05fields(br *world.BlockResult) []*core.Violation {
 			continue // unchanged since the last boundary: already checked in this lifecycle stage
 		}
 		muts := deliveredFieldMutations(q)
+		out = append(out, w.feeValueFamily(q, br.Height)...)
 		base, ok := w.mutatedBytes(q.Raw, func(*consensustypes.QueuedSignedMessage, *evmtypes.Message) {})
 		if !ok || !bytes.Equal(base, q.Bytes) {
 			core.Harnessf("identity mutation changes signing bytes of message %d", id)
@@ -917,6 +978,18 @@ type chainEffects struct {
 	snapOnChain uint64
 	compass     string
 	activeID    uint64
+	pending     map[uint64]string // smart contract id -> address recorded for a deployment that awaits its handover
+}
+
+func fmtID(id uint64) string { return fmt.Sprint(id) }
+
+func sortedU64(m map[uint64]string) []uint64 {
+	out := make([]uint64, 0, len(m))
+	for k := range m {
+		out = append(out, k)
+	}
+	sort.Slice(out, func(i, j int) bool { return out[i] < out[j] })
+	return out
 }
 
 func (w *JobWorld) effects() map[string]chainEffects {
@@ -931,6 +1004,14 @@ func (w *JobWorld) effects() map[string]chainEffects {
 			e.compass = ci.SmartContractAddr
 			e.activeID = ci.ActiveSmartContractID
 		}
+		e.pending = map[uint64]string{}
+		if deps, err := w.N.App.EvmKeeper.AllSmartContractsDeployments(ctx); err == nil {
+			for _, d := range deps {
+				if d.ChainReferenceID == c && d.NewSmartContractAddress != "" {
+					e.pending[d.SmartContractID] = d.NewSmartContractAddress
+				}
+			}
+		}
 		out[c] = e
 	}
 	return out
@@ -941,6 +1022,7 @@ func (w *JobWorld) oracleC07(br *world.BlockResult, prevE *elig, prevFx, curFx m
 	h := br.Height
 	evNew, _ := w.blockSubmissions(br)
 	justified := map[string]bool{} // chain -> an accepted proof explains an effect on it in this block
+	justifiedCompass := map[string]bool{}
 	for _, id := range SortedIDs(w.Prev) {
 		q := w.Prev[id]
 		if _, still := w.Cur[id]; still || q.Msg == nil {
@@ -992,7 +1074,18 @@ func (w *JobWorld) oracleC07(br *world.BlockResult, prevE *elig, prevFx, curFx m
 		case *evmtypes.Message_UploadSmartContract:
 			if curFx[q.Chain].activeID == a.UploadSmartContract.Id && prevFx[q.Chain].activeID != a.UploadSmartContract.Id {
 				effect = fmt.Sprintf("bridge contract %d activated on %s at %s", a.UploadSmartContract.Id, q.Chain, curFx[q.Chain].compass)
+			} else if curFx[q.Chain].pending[a.UploadSmartContract.Id] != "" && prevFx[q.Chain].pending[a.UploadSmartContract.Id] == "" {
+				effect = fmt.Sprintf("new bridge contract %d recorded for %s at %s (awaiting handover)", a.UploadSmartContract.Id, q.Chain, curFx[q.Chain].pending[a.UploadSmartContract.Id])
+				w.R.Stats.Probe("c07_redeploy_recorded")
 			}
+		case *evmtypes.Message_CompassHandover:
+			if curFx[q.Chain].activeID == a.CompassHandover.Id && prevFx[q.Chain].activeID != a.CompassHandover.Id {
+				effect = fmt.Sprintf("bridge contract %d activated on %s at %s after handover", a.CompassHandover.Id, q.Chain, curFx[q.Chain].compass)
+				w.R.Stats.Probe("c07_handover_activated")
+			}
+		}
+		if effect != "" {
+			justifiedCompass[q.Chain] = true
 		}
 		if effect != "" {
 			justified[q.Chain] = true
@@ -1013,6 +1106,15 @@ func (w *JobWorld) oracleC07(br *world.BlockResult, prevE *elig, prevFx, curFx m
 		}
 	}
 	for _, c := range w.Order {
+		// the bridge contract Paloma talks to (and records as awaiting handover) never changes without such a proof either
+		if prevFx[c].activeID != 0 && (curFx[c].activeID != prevFx[c].activeID || curFx[c].compass != prevFx[c].compass) && !justifiedCompass[c] {
+			out = append(out, vio("C07", "effect-without-proof", h, nil, fmt.Sprintf("active bridge contract on %s changed from %d at %s to %d at %s in a block in which no upload / handover message was removed with a quorum-backed transaction proof", c, prevFx[c].activeID, prevFx[c].compass, curFx[c].activeID, curFx[c].compass)))
+		}
+		for _, id := range sortedU64(curFx[c].pending) {
+			if prevFx[c].pending[id] == "" && !justifiedCompass[c] {
+				out = append(out, vio("C07", "effect-without-proof", h, nil, fmt.Sprintf("a new bridge contract address %s was recorded for deployment %s on %s in a block in which no upload message was removed with a quorum-backed transaction proof", curFx[c].pending[id], fmtID(id), c)))
+			}
+		}
 		if curFx[c].snapOnChain != prevFx[c].snapOnChain && !justified[c] && prevFx[c].snapOnChain != 0 {
 			out = append(out, vio("C07", "effect-without-proof", h, nil, fmt.Sprintf("snapshot live on %s changed from %d to %d in a block in which no message was removed with a quorum-backed transaction proof", c, prevFx[c].snapOnChain, curFx[c].snapOnChain)))
 		}
